@@ -9,7 +9,12 @@ def stress(binary, seed, g, rounds, procs, trace=None, timeout=900):
     cmd = [binary, "c09stress", "-seed", str(seed), "-g", str(g), "-rounds", str(rounds), "-procs", str(procs)]
     if trace:
         cmd += ["-trace", trace]
-    p = subprocess.run(cmd, stdout=subprocess.PIPE, stderr=subprocess.PIPE, text=True, env=vlib.GOENV, timeout=timeout)
+    try:
+        p = subprocess.run(cmd, stdout=subprocess.PIPE, stderr=subprocess.PIPE, text=True, env=vlib.GOENV, timeout=timeout)
+    except subprocess.TimeoutExpired:
+        # the harness reports calls that do not return by itself (no progress for a minute = "fatal error"); a run that is still
+        # making progress after this long is a machine too slow for a verdict
+        raise vlib.Infra("c09stress still running after %d s" % timeout)
     divs, summ = [], None
     for line in p.stdout.splitlines():
         if line.startswith('{"t":"div"'):
